@@ -11,7 +11,7 @@ template<class V> void sweep(const char*, std::false_type) {}
 template<class V> void sweep(const char* type, std::true_type) {
     typedef typename V::scalar T;
     typedef typename ExpT<T>::type IT;
-    if (!opt().thorough) return;
+    if (!opt().sweep) return;
     BoolEq beq; IntEq<IT> ieq;
     fsweep32<V, IT>("C13", type, "fpclassify/all2^32", [](V a) { return avel::to_array(avel::fpclassify(a)); }, [](T a, IT& o) { volatile T x = a; o = (IT)std::fpclassify(x); return true; }, ieq);
     fsweep32<V, bool>("C13", type, "isnan/all2^32", [](V a) { return observe_mask<V>(avel::isnan(a)); }, [](T a, bool& o) { volatile T x = a; o = std::isnan(x); return true; }, beq);
